@@ -90,7 +90,9 @@ func (a *IBCAdapter) ParsePacket(
 		return nil, core.ErrNoOrbiterPacket.Wrap("data is not ICS20 packet")
 	}
 
-	if packet.GetReceiver() != core.ModuleAddress.String() {
+	// The receiver is compared by the account it decodes to, not by its spelling: ICS-20 credits
+	// the decoded account, and bech32 strings have more than one valid spelling (e.g. upper case).
+	if !isOrbiterReceiver(packet.GetReceiver()) {
 		return nil, core.ErrNoOrbiterPacket.Wrap("receiver is not Orbiter module")
 	}
 
@@ -119,6 +121,14 @@ func (a *IBCAdapter) ParsePacket(
 		Coin:    sdk.NewCoin(denom, amount),
 		Payload: *payload,
 	}, nil
+}
+
+// isOrbiterReceiver returns true if the receiver string decodes to the
+// orbiter module account.
+func isOrbiterReceiver(receiver string) bool {
+	addr, err := sdk.AccAddressFromBech32(receiver)
+
+	return err == nil && addr.Equals(core.ModuleAddress)
 }
 
 var _ types.PayloadParser = &IBCParser{}
